@@ -716,6 +716,7 @@ class O4Material:
 
     def __init__(self, kind):
         self.kind = kind
+        self.skip = {'visco2': ('ivs_update_jac_coords_vjp', 'ivs_update_default_dt_is_zero'), 'j2': ('ivs_update_jac_ivs_prev',)}.get(kind, ())
         if kind in ('visco', 'visco2'):
             from optimism.material import HyperViscoelastic as HV
             self.mod = HV
@@ -840,11 +841,13 @@ class O4Setup:
 
             def default_dt(X, U, iv, av, vx, Ubc, dt):
                 inv = inv_funcs(X)
-                a = (inv.ivs_update_jac_ivs_prev(U, iv), inv.ivs_update_jac_disp_vjp(U, iv, av), inv.ivs_update_jac_coords_vjp(U, iv, X, av))
                 mf = self.mech(X)
-                J = jax.jacfwd(lambda z: mf.compute_updated_internal_variables(U, z, 0.0))(iv)
-                b = (J[:, :, :, 0, 0, :], jax.vjp(lambda z: mf.compute_updated_internal_variables(z, iv, 0.0), U)[1](av)[0],
+                a = (inv.ivs_update_jac_disp_vjp(U, iv, av), inv.ivs_update_jac_coords_vjp(U, iv, X, av))
+                b = (jax.vjp(lambda z: mf.compute_updated_internal_variables(z, iv, 0.0), U)[1](av)[0],
                      jax.vjp(lambda z: self.mech(z).compute_updated_internal_variables(U, iv, 0.0), X)[1](av)[0])
+                if 'ivs_update_jac_ivs_prev' not in mat.skip:
+                    J = jax.jacfwd(lambda z: mf.compute_updated_internal_variables(U, z, 0.0))(iv)
+                    a, b = a + (inv.ivs_update_jac_ivs_prev(U, iv),), b + (J[:, :, :, 0, 0, :],)
                 return a, b
             out['ivs_update_default_dt_is_zero'] = default_dt
 
@@ -870,7 +873,7 @@ class O4Setup:
                 b = jax.vjp(lambda z: self.ref_residual(U, q, iv0, z), X)[1](vx)[0]
                 return a, b
             out['residual_jac_coords_vjp'] = res_coords_vjp0
-        return out
+        return {k: v for k, v in out.items() if k not in mat.skip}
 
 
 O4_NAMES = ('X', 'U', 'iv', 'av', 'vx', 'Ubc', 'dt')
@@ -1103,6 +1106,17 @@ def _reg_o4(kind, tiers, cap):
 _reg_o4('visco', ('quick', 'thorough'), 600)
 _reg_o4('neo', ('quick', 'thorough'), 600)
 _reg_o4('j2', ('quick', 'thorough'), 900)
+_reg_o4('visco2', ('thorough',), 900)
 
 
-DESIGNED_NOT_REGISTERED = []
+DESIGNED_NOT_REGISTERED = [
+    ('O4.helper_vjps[j2]/ivs_update_jac_ivs_prev (and its default-dt twin)',
+     'unknown @60 s (core and nlsat): helper (jacfwd of compute_state_new per point) and reference (jacfwd of the public update, block extracted) nest vmap(jvp) differently around '
+     'custom_root\'s tangent rule; 100 entries, none syntactically shared, 3.5k-node DAG with sqrt side conditions.  The same helper is discharged for the viscoelastic material, '
+     'the J2 displacement/coordinate VJPs and both residual VJPs are discharged'),
+    ('O4.helper_vjps[visco2]/ivs_update_jac_coords_vjp (second-order expm surrogate)',
+     'unknown @600 s: with expm := I + A + A^2/2 the two reverse passes accumulate the cotangent of A in different orders, the outputs are rational functions (det J^2 denominators) of 30 reals '
+     'that z3 does not normalise; discharged with the first-order surrogate (quick and thorough), all other helpers also with the second-order one (thorough)'),
+    ('real (unstubbed) log_sqrt_symm / expm inside O4', 'their custom JVPs (eigen-decomposition, Pade) under jax.vjp are outside what JX encodes; replaced by polynomial surrogates on both sides; '
+     'replays run the unmodified material'),
+]
